@@ -62,7 +62,9 @@ def net_strategy(dll, max_stacks=4, max_msgs=8, allow_zero_latency=True, min_len
                            "tx_time": draw(st.sampled_from([0.0, 0.0, 0.0, 0.0001, 0.0005, 0.002])),
                            "slow_rx": draw(st.sampled_from([0.0, 0.0, 0.0, 0.001, 0.02])),
                            # time a frame write of a stack thread waits before the frame is on the bus (transmit queue, lock)
-                           "tx_pre": draw(st.sampled_from([0.0, 0.0, 0.0, 0.0003, 0.001]))})
+                           "tx_pre": draw(st.sampled_from([0.0, 0.0, 0.0, 0.0003, 0.001])),
+                           # a cyclic application timer on the ECU (e.g. a DM1 cycle): the job thread has other deadlines too
+                           "app_timer": draw(st.sampled_from([None, None, None, 0.4, 2.0]))})
         unowned = [a for a in naddr[ai:]]
         nm = draw(st.integers(1, max_msgs))
         msgs = []
@@ -237,6 +239,8 @@ def build_world(params, bam_dt=None, rts_cts_dt=None, **bus_kw):
             stk.listen_ca("ca%d" % j, "s%d.ca%d" % (i, j), slow=s.get("slow_rx", 0.0) if j == 0 else 0.0)
         if s["ecu_listener"]:
             stk.listen_ecu("s%d.ecu" % i)
+        if s.get("app_timer"):
+            stk.ecu.add_timer(s["app_timer"], lambda cookie: True)
         stacks.append(stk)
     return w, stacks
 
